@@ -1,43 +1,25 @@
-import sys, time
+import sys, traceback, logging
 sys.path.insert(0, "/verif")
-from lib import env; env.setup()
+from lib import env
+env.setup()
+logging.disable(logging.NOTSET)
+logging.basicConfig(level=logging.ERROR)
 from migen import *
-from litex.soc.cores.ecc import *
-from litex.gen.sim.core import Simulator
-
-class Top(Module):
-    def __init__(self, k):
-        m, n = compute_m_n(k)
-        self.flip = Signal(n+1)
-        self.submodules.enc = ECCEncoder(k)
-        self.submodules.dec = ECCDecoder(k)
-        self.comb += self.dec.i.eq(self.enc.o ^ self.flip)
-
-import random
-for k in [int(a) for a in sys.argv[1:]]:
-    top = Top(k)
-    m, n = compute_m_n(k)
-    sim = Simulator(top, [])
-    ev = sim.evaluator
-    ev.execute(sim.fragment.comb); sim._commit_and_comb_propagate()
-    passes = [0]
-    orig = ev.execute
-    def ex(st, orig=orig):
-        if st is sim.fragment.comb: passes[0] += 1
-        return orig(st)
-    ev.execute = ex
-    def evalvec(d, f, e):
-        ev.assign(top.enc.i, d); ev.assign(top.flip, f); ev.assign(top.dec.enable, e)
-        sim._commit_and_comb_propagate()
-        return ev.eval(top.dec.o), ev.eval(top.dec.sec), ev.eval(top.dec.ded)
-    d = random.getrandbits(k)
-    t0 = time.time(); evalvec(d, 0, 1); t1 = time.time()
-    print(k, "data change: %.3f s, passes %d" % (t1-t0, passes[0]))
-    passes[0] = 0
-    t0 = time.time()
-    ok = True
-    for p in range(n+1):
-        r = evalvec(d, 1 << p, 1)
-        ok &= (r[0] == d)
-    t1 = time.time()
-    print(k, "flip-only: %.4f s/eval, passes/eval %.1f" % ((t1-t0)/(n+1), passes[0]/(n+1)), ok, "stmts", len(sim.fragment.comb))
+from litex.soc.integration import soc_core, soc as S
+from litex.soc.interconnect import wishbone
+from litex.build.generic_platform import GenericPlatform, Pins
+plat = GenericPlatform("verif-device", [("clk", 0, Pins("A1"))], name="verif")
+soc = soc_core.SoCCore(plat, clk_freq=int(50e6), cpu_type=None, bus_standard="wishbone",
+                               bus_data_width=32, csr_address_width=14,
+                               csr_paging=0x800, integrated_rom_size=0x8000,
+                               integrated_sram_size=0x1000, with_uart=False, with_timer=True, with_ctrl=True,
+                               ident="", ident_version=False)
+soc.clock_domains.cd_sys = ClockDomain("sys")
+soc.bus.add_master("verif", wishbone.Interface(data_width=32, address_width=32))
+print(soc.bus.io_regions_check, soc.bus.regions.keys(), soc.mem_map, soc.cpu.reset_address_check if hasattr(soc.cpu,"reset_address_check") else None)
+try:
+    soc.finalize()
+    print(type(soc.bus._interconnect), soc.csr.locs, {k: hex(v.origin) for k,v in soc.csr.regions.items()}, hex(soc.bus.regions["csr"].origin))
+except Exception:
+    sys.stderr = sys.__stderr__
+    traceback.print_exc()
